@@ -708,7 +708,7 @@ def oracle(ctx, kind, case, out):
 # ------------------------------------------------------------------ generators
 
 ORIGINS = [[b"example", b""], [b"example", b""], [b"example", b""], [b"Ex", b"ORG", b""], [b""]]
-RELS = [[], [b"www"], [b"a"], [b"b", b"a"], [b"WWW"], [b"mail"]]
+RELS = [[], [b"www"], [b"a"], [b"b", b"a"], [b"WWW"], [b"mail"], [b"c", b"b", b"a"], [b"d", b"a"]]
 TYPES = [A, A, A, TXT, TXT, CNAME, CNAME, NSEC, MX, NS, RRSIG, RRSIG, SOA, SOA, DNAME, KEY, NXT, NSEC3, SIG]
 TTLS = [0, 1, 300, 300, 3600, 2**31 - 1, MAX_TTL]
 SERIALS = [0, 1, 5, 2**31 - 1, 2**31, 2**31 + 1, 2**32 - 2, 2**32 - 1]
@@ -1072,6 +1072,73 @@ def cases(ctx):
         post = [g.op() for _ in range(rng.choice([1, 2, 4]))]
         yield "ended", mk_case(kind, rel, origin, [setup, [rng.choice([0, 1]), 0, pre + [[rng.choice([11, 12])]] + post, -1]])
         yield "readonly", mk_case(kind, rel, origin, [setup, [2, rng.randrange(2), pre + post, -1]])
+    # 7. delegations: descendants (b.a, c.b.a, d.a) committed in an EARLIER transaction, then a transaction that
+    #    adds / replaces / deletes / deletes-exact NS at the ancestor `a` (or at b.a) without touching them - the
+    #    B-tree zone re-creates the descendant nodes for its glue flags - with reads inside the transaction, commit,
+    #    then the NS removed again; every history under all six configurations (content must agree with the
+    #    reference store, hence across the three zone classes)
+    for i in range(ctx.n(14, 120)):
+        origin = rng.choice(ORIGINS[:4])
+        g = Gen(rng, origin)
+        cut = rng.choice([[b"a"], [b"a"], [b"b", b"a"]])
+        below = [r for r in RELS if len(r) > len(cut) and r[len(r) - len(cut):] == cut]
+        others = [r for r in RELS if r not in below and r != cut and r != [] and r != [b"WWW"]]
+        pop = [[1, [[0, []], [2, [SOA, 0, 3600, [[1, rng.choice(SERIALS)]], 1]]]]]
+        for r in below + rng.sample(others, rng.randint(0, 2)) + ([cut] if rng.random() < 0.4 else []):
+            for _ in range(rng.choice([1, 1, 2])):
+                ty = rng.choice([A, A, TXT, MX, CNAME, NSEC, RRSIG])
+                cov = rng.choice([A, TXT]) if ty == RRSIG else 0
+                pop.append([1, [[0, r], [2, g.rds(ty, cov, empty=0, badclass=0)]]])
+        setup = [0, 1, pop, -1]
+
+        def reads():
+            out = []
+            for r in rng.sample(below, min(len(below), rng.choice([1, 2]))):
+                k = rng.randrange(4)
+                if k == 0:
+                    out.append([6, g.spell(r), rng.choice([A, TXT, MX]), 0])
+                elif k == 1:
+                    out.append([10, [0, g.spell(r, rng.randrange(2))[1]]])
+                elif k == 2:
+                    out.append([7, g.spell(r)])
+                else:
+                    out.append([9])
+            return out
+
+        ns = g.rds(NS, 0, empty=0, badclass=0)
+        k = i % 4
+        if k == 0:
+            put = [1, [g.spell(cut), [2, ns]]]
+        elif k == 1:
+            put = [2, [g.spell(cut), [2, ns]]]
+        elif k == 2:
+            put = [1, [g.spell(cut), [4, rng.choice(TTLS)], [5, [NS, 0, ns[3][0][0], 0, 1]]]]
+        else:
+            put = [1, [[3, g.spell(cut)[1], ns]]]
+        touch = [[1, [g.spell(rng.choice(below)), [2, g.rds(A, 0, empty=0, badclass=0)]]]] if (below and rng.random() < 0.25) else []
+        t_add = [0, rng.randrange(2), reads() + [put] + touch + reads() + ([[11]] if rng.random() < 0.3 else []), -1]
+        k2 = (i // 4) % 5
+        if k2 == 0:
+            rem = [3, [g.spell(cut), [4, NS]]]
+        elif k2 == 1:
+            rem = [3, [g.spell(cut), [2, ns]]]
+        elif k2 == 2:
+            rem = [4, [g.spell(cut), [2, [NS, 0, 0, ns[3][:1], 1]]]]
+        elif k2 == 3:
+            rem = [4, [g.spell(cut), [6, NS]]]
+        else:
+            rem = [3, [g.spell(cut)]]
+        t_del = [0, rng.randrange(2), reads() + [rem] + reads(), -1]
+        tail = [[2, 1, reads(), -1]]
+        hists = [[setup, t_add, t_del] + tail]
+        if rng.random() < 0.5:
+            hists.append([setup, [0, 1, t_add[2], len(t_add[2])], t_add, t_del])  # the NS transaction aborted first
+        for hist in hists:
+            base = mk_case(0, 1, origin, hist)
+            form = rng.randrange(4)
+            for kind in range(3):
+                for rel in range(2):
+                    yield "delegation", reform_case(base, kind, rel, form if ctx.tier == "quick" else rng.randrange(4))
     # 6. every rdata type of the universe: merged twice through each argument form (the second add meets an
     #    existing - possibly empty - rdataset), read back, deleted by type with boundary type values
     allt = [A, NS, CNAME, SOA, MX, TXT, SIG, KEY, NXT, DNAME, RRSIG, NSEC, NSEC3]
